@@ -413,7 +413,26 @@ VariablesStack::findXObject(
                 const PushAndPopContextMarker   theContextMarkerPushPop(executionContext);
 #endif
 
-                theNewValue = var->getValue(executionContext, doc);
+                {
+                    // A top-level variable is evaluated with the root node
+                    // as the current node, in a current node list that
+                    // holds just that node (XSLT 1.0, section 11.4), not in
+                    // the node list of the place that refers to it first.
+                    typedef StylesheetExecutionContext::BorrowReturnMutableNodeRefList  BorrowReturnMutableNodeRefList;
+                    typedef StylesheetExecutionContext::ContextNodeListPushAndPop       ContextNodeListPushAndPop;
+
+                    BorrowReturnMutableNodeRefList  theRootList(executionContext);
+
+                    theRootList->addNode(doc);
+
+                    theRootList->setDocumentOrder();
+
+                    const ContextNodeListPushAndPop     theContextNodeListPushAndPop(
+                                executionContext,
+                                *theRootList);
+
+                    theNewValue = var->getValue(executionContext, doc);
+                }
                 assert(theNewValue.null() == false);
 
 #if !defined(XALAN_RECURSIVE_STYLESHEET_EXECUTION)
